@@ -263,6 +263,9 @@ theorem insert_uk (s : Streams) (st : Stream) (h1 : st.pendingSend = []) (h2 : s
     exact ⟨x, insert_get?_old _ _ _ _ hx⟩
 
 
+theorem insertNew_uk (s : Streams) (id a b : Nat) : UK s { s with store := (s.store.insert (Stream.new id a b)).1 } :=
+  insert_uk s _ rfl rfl rfl
+
 -- ===================================================================== the peeling tactic (design of `lt_auto` / `relHead`)
 
 open Lean Elab Tactic Meta in
@@ -328,16 +331,17 @@ def relHead2 (rel : Name) (sfx : String) (fb : Option (String × Name)) (recordC
     | _ => throwError "rel_head: unexpected goals after trans"
 
 syntax "uk_side" : tactic
-macro_rules | `(tactic| uk_side) => `(tactic| (intro _; rfl))
+macro_rules | `(tactic| uk_side) => `(tactic| (intro _; exact Eq.refl _))
 macro_rules | `(tactic| uk_side) => `(tactic| (intro _; kp_tac))
 macro_rules | `(tactic| uk_side) => `(tactic| decide)
-macro_rules | `(tactic| uk_side) => `(tactic| rfl)
+macro_rules | `(tactic| uk_side) => `(tactic| exact Eq.refl _)
 macro_rules | `(tactic| uk_side) => `(tactic| assumption)
 
 elab "uk_head" : tactic => do
   relHead2 ``UK "_uk" none (← `(tactic| first
     | with_reducible refine UK.trans ?_ (setMisc_uk _ _ _ _ _ _ rfl)
-    | with_reducible refine UK.trans ?_ (setCounts_uk _ _)))
+    | with_reducible refine UK.trans ?_ (setCounts_uk _ _)
+    | with_reducible refine UK.trans ?_ (insertNew_uk _ _ _ _)))
 
 syntax "uk_step" : tactic
 macro_rules | `(tactic| uk_step) => `(tactic| uk_head)
